@@ -495,6 +495,7 @@ func (t *wScreen) Resume() error {
 	t.Lock()
 
 	if t.running {
+		t.Unlock()
 		return errors.New("already engaged")
 	}
 	t.running = true
